@@ -11,7 +11,12 @@ TRUSTED_BASE = [
     "window samples are computed by the model in doubles (Float.cos/exp/...), compared at rtol 1e-9 (taylor/kaiser 1e-8)",
     "per-sample references of the oracle (|w - ref| <= 1e-9 |ref| + 1e-15; cosine sums + 1e-14): numpy closed forms written in the "
     "oracle for gaussian / poisson / poisson_hanning / cauchy / hamming / blackman / nuttall / blackman_nuttall / blackman_harris / "
-    "flattop (both coefficient sets), scipy.special.i0 for kaiser, scipy.signal.windows.chebwin for chebwin",
+    "flattop (both coefficient sets), scipy.special.i0 for kaiser, scipy.signal.windows.chebwin for chebwin; taylor: the Carrara-"
+    "Goodman-Majewski coefficients F_m and cosine sum written in the oracle with float arithmetic only (floor 3e-13; agrees with "
+    "scipy.signal.windows.taylor(N, nbar, -sll, norm=True) to 1e-15)",
+    "a request whose shape parameter is a numpy.float32 is computed partly in single precision by the library: it is compared with the "
+    "double-precision request of the same value at 3e-5 of the window maximum (max <= 1 and centre = 1 at 3e-5), not with the closed "
+    "form or the model",
     "Kaiser beta > 50 is outside the model's 60-term I0 series: those cases are checked by the oracle only (scipy.special.i0)",
     "the window-name table, generator signatures and factory routing are regenerated from the live package into "
     "lean/SpecVerif/Generated/Registry.lean on every run; the alias/routing theorems are `decide`d about that table",
@@ -23,6 +28,11 @@ ASSUMPTIONS = ["the ENBW comparison (Window.enbw, spectrum.enbw against N sum w^
                "all-zero window (hann(2), riesz(1)) has no ENBW (0/0) and the '>= 1' clause is stated for N >= 3",
                "values outside the documented set (tukey r outside [0, 1], flattop mode not symmetric/periodic) are refused with "
                "AssertionError; keywords that are not documented for the window with ValueError; Window without a name with ValueError",
+               "Taylor windows: no range is documented for nbar / sll; cases stay where the Taylor design itself (the closed form) has "
+               "maximum <= 1: nbar 1..8 at sll <= -22 (DESIGN 0.6) and nbar <= 40 at sll <= -30 (at sll = -25 the design exceeds 1 from "
+               "nbar = 18, at -22 from nbar = 10)",
+               "a shape parameter or a length given as an 8-bit or an unsigned numpy integer is not generated (pending ruling: the "
+               "unchanged library wraps -N/2, -alpha, nbar**2 in the argument's type and returns a different window)",
                "flattop(mode='periodic') satisfies w[n] = w[N-n] (the periodic variant); the symmetric clause is read for the default mode",
                "Chebyshev windows: the centre-sample clause is evaluated for attenuation >= 45 dB and N <= 512 (the exhaustive range): a "
                "Dolph-Chebyshev window whose main lobe is narrower than the requested attenuation allows has its maximum at the end "
@@ -32,7 +42,18 @@ RULE = ("all 29 window names x N = 1..96 exhaustively (quick) / 1..512 (thorough
         "random shape parameters over their documented ranges, plus Chebyshev attenuation 20..150 (5..300 thorough), Kaiser beta "
         "50/300/700, integer / float / numpy-scalar twins of every parameter, N given as numpy int64/int32, parameterised windows "
         "at N = 1023, 4096 (thorough); factory routing (default name, every keyword of every generator against every name), alias, "
-        "Window-object, direct-generator (kaiser method, flattop precision='octave') and value-guard cases; non-trivial = N >= 3")
+        "Window-object, direct-generator (kaiser method, flattop precision='octave') and value-guard cases; "
+        "the numeric TYPE of every shape parameter as a generated dimension (Python int / Python float / numpy int16, int32, int64, "
+        "float32, float64 of the same value; every case with a non-float parameter is compared with the all-Python-float request: "
+        "identical array, float32 to 3e-5) over integer-valued and fractional values of the customary AND upper ranges (Kaiser beta "
+        "0..100, Gaussian alpha 1..40, Poisson/Hann-Poisson/Cauchy alpha 0..100, Chebyshev 45..250 dB, Tukey r 0/1/fractions), partly "
+        "with a numpy-integer N; Taylor: every nbar of 2..40 as Python int, Python float and numpy.int64 (one further type in turn) "
+        "x sll -30..-80 of every type x N 2..129, random (nbar 2..40, sll -80..-30, N < 300) of random types, all against an "
+        "independent double-precision closed form per sample; float draws from the upper ranges (beta 30..120, alpha 6..40/100, "
+        "attenuation 120..250); N as numpy.int16 at 181..1000 (N*N beyond the type) for every name and as numpy.int32 at 46341 / "
+        "46342 / 65536 (a sixth of the names; every name thorough); N = 65536, 65537, 131072 for 18 (name, parameter) pairs (thorough). "
+        "Not generated (pending ruling, /tmp/finding_C20.py): 8-bit and unsigned numpy integers as N or as a parameter. "
+        "non-trivial = N >= 3")
 
 
 def _W():
@@ -67,14 +88,48 @@ def _N(p):
     return NTYPES[p["ntype"]](p["N"]) if p.get("ntype") else p["N"]
 
 
+# numeric type of a shape parameter as handed to the library.  params["kw"] holds the VALUE (a Python int or float: JSON keeps the
+# two apart, so nbar=16 and nbar=16.0 replay as what they were); params["ptype"] = {keyword: type name} names a numpy scalar type
+# (a numpy scalar itself would come back from a replay file as a Python number).
+# PENDING-FINDING: the 8-bit and the unsigned numpy integers are NOT generated (see /tmp/finding_C20.py): on the unchanged tree
+#   * window_taylor(N, nbar=numpy.int8(12..)) / numpy.uint8(16..) is a different window (nbar**2 wraps in the parameter's own type),
+#   * window_poisson / window_poisson_hanning(N, alpha=numpy.uintXX(a)) is exp(+huge) (-alpha wraps),
+#   * N given as numpy.uint8/16/32/64 gives a different window for cauchy, gaussian, lanczos/sinc, parzen, poisson,
+#     poisson_hanning, riemann, riesz (-N/2 wraps) and chebwin; chebwin with N equal to the largest value of its integer type
+#     (int8(127), int16(32767)) returns N-1 samples.
+PTYPES = {"int16": np.int16, "int32": np.int32, "int64": np.int64, "float32": np.float32, "float64": np.float64}
+# a single-precision parameter makes part of the computation single precision (10**(-sll/20), (1 - alpha)/2, scipy's chebwin
+# order ...): such a request is compared with the double-precision request of the same value at FLOAT32_TOL of the window maximum,
+# not sample by sample at 1e-9.  Worst observed on the unchanged tree over the generated cases (quick seeds 0..4, thorough seeds
+# 0..1): taylor 5.3e-7 (nbar 38, sll -40, N 129), tukey 2.5e-8, blackman 1.5e-8, chebwin 1.0e-8; margin 56x.
+FLOAT32_TOL = 3e-5
+
+
+def _kw(p):
+    """the keyword arguments as handed to the library (values of p['kw'], each as the type named by p['ptype'], if any)"""
+    pt = p.get("ptype") or {}
+    return {k: (PTYPES[pt[k]](v) if k in pt else v) for k, v in p["kw"].items()}
+
+
+def _kwf(p):
+    """the same request with every numeric parameter as a Python float of the same value"""
+    return {k: (v if isinstance(v, str) else float(v)) for k, v in _kw(p).items()}
+
+
+def _single(p):
+    return "float32" in (p.get("ptype") or {}).values()
+
+
 def impl_win(p):
     W = _W()
-    return [np.asarray(W.create_window(_N(p), p["name"], **p["kw"]), dtype=float)]
+    return [np.asarray(W.create_window(_N(p), p["name"], **_kw(p)), dtype=float)]
 
 
 def model_win(p):
     g = _gen_name(p["name"])
-    kw = p["kw"]
+    if _single(p):
+        return None          # single-precision parameter: compared with the double-precision request by the oracle (FLOAT32_TOL)
+    kw = _kwf(p)
     par = []
     if g in ("window_kaiser",):
         if kw.get("beta", 8.6) > 50:
@@ -138,7 +193,31 @@ def _reference(g, N, kw):
     if g == "window_flattop":
         x = 2 * np.pi * n / float(N) if kw.get("mode") == "periodic" else th
         return _flattop_ref(x, None), 1e-14
+    if g == "window_taylor":
+        # floor: worst |w - ref| measured on the unchanged tree over nbar 1..40 x sll -22..-100 x N in 2..2048 is 9.3e-15
+        # (5.6e-16 at N = 65536/65537); 3e-13 leaves a margin of 30x.  The smallest |ref| of that grid is 3.5e-4.
+        return _taylor_ref(N, kw.get("nbar", 4), kw.get("sll", -30)), 3e-13
     return None
+
+
+def _taylor_ref(N, nbar, sll):
+    """Taylor window (Carrara, Goodman & Majewski pp. 512-513) normalised by its value at the continuous centre, all in doubles and
+    with no integer arithmetic: F_m = (-1)^(m+1) prod_j (1 - m^2/(s2 (A^2 + (j-1/2)^2))) / (2 prod_{j != m} (1 - m^2/j^2)),
+    w[n] = (1 + 2 sum_m F_m cos(2 pi m (n - (N-1)/2)/N)) / (1 + 2 sum_m F_m),  m, j = 1..nbar-1"""
+    nb = int(nbar)
+    sll = float(sll)
+    A = np.arccosh(10.0 ** (-sll / 20.0)) / np.pi
+    s2 = float(nb) ** 2 / (A ** 2 + (nb - 0.5) ** 2)
+    j = np.arange(1, nb, dtype=float)
+    F = np.zeros(max(nb - 1, 0))
+    for i in range(nb - 1):
+        m = float(i + 1)
+        num = np.prod(1.0 - m * m / s2 / (A ** 2 + (j - 0.5) ** 2))
+        den = 2.0 * np.prod(1.0 - m * m / (np.delete(j, i) ** 2))
+        F[i] = (-1.0) ** i * num / den
+    n = np.arange(N, dtype=float)
+    w = 1.0 + 2.0 * np.dot(F, np.cos(2 * np.pi * np.outer(j, (n - (N - 1) / 2.0) / N))) if nb > 1 else np.ones(N)
+    return w / (1.0 + 2.0 * F.sum())
 
 
 def _flattop_ref(x, precision):
@@ -151,7 +230,10 @@ def _flattop_ref(x, precision):
 def oracle_win(p):
     import spectrum
     W = _W()
-    N, name, kw = p["N"], p["name"], p["kw"]
+    N, name = p["N"], p["name"]
+    kw = _kw(p)         # what the library is given: each shape parameter as the numeric type named by p['ptype'], if any
+    kwf = _kwf(p)       # the same values as Python floats: what the closed-form references are evaluated with
+    single = _single(p)
     Nl = _N(p)          # what the library is given (a numpy integer for the 'ntype' cases)
     out = []
     tag = "%s(N=%s%d%s)" % (name, (p["ntype"] + ":") if p.get("ntype") else "", N, "".join(", %s=%r" % kv for kv in kw.items()))
@@ -162,15 +244,44 @@ def oracle_win(p):
     if p.get("ntype"):
         # a length given as a numpy integer is the same length
         w0 = np.asarray(W.create_window(int(N), name, **kw))
-        if w.shape != w0.shape or not np.array_equal(w, w0):
+        if _gen_name(name) == "window_chebwin" and w.shape == w0.shape:
+            # scipy.signal.windows.chebwin itself is not bit-identical for a numpy-integer and a Python-int length (even lengths:
+            # 1j*pi/M is a numpy complex division for a numpy M): about 10% of (N, attenuation) differ in the last bit, worst
+            # 2.2e-16 absolute on the unchanged tree (N < 400 and N = 46342; measured while adding the numpy-integer lengths
+            # beyond 128).  The wrapper must hand the length over unchanged: exactly scipy's result for that very N, and the
+            # Python-int window to 1e-13 of the maximum (450x the worst observed); every other window: identical arrays.
+            import scipy.signal.windows
+            ws = np.asarray(scipy.signal.windows.chebwin(Nl, kw.get("attenuation", 50)))
+            if ws.shape != w.shape or not np.array_equal(w, ws):
+                out.append("create_window %s is not scipy.signal.windows.chebwin for that length and attenuation" % tag)
+            if not np.max(np.abs(w - w0)) <= 1e-13 * float(np.max(np.abs(w0))):
+                out.append("create_window %s differs from the same request with a Python int N by %.3e" % (tag, np.max(np.abs(w - w0))))
+        elif w.shape != w0.shape or not np.array_equal(w, w0):
             out.append("create_window %s differs from the same request with a Python int N" % tag)
     if p.get("twin") is not None:
         # the same parameter value given as the other numeric type (3 / 3.0, numpy scalar) is the same window
         wt = np.asarray(W.create_window(Nl, name, **p["twin"]))
         if wt.shape != w.shape or not np.array_equal(w, wt):
             out.append("create_window %s differs from the same request with %r" % (tag, p["twin"]))
+    if any(type(v) is not float and not isinstance(v, str) for v in kw.values()):
+        # a shape parameter given as a Python int / numpy integer / numpy float is the same number as the Python float of that
+        # value: the identical window (a single-precision parameter: the same window to FLOAT32_TOL of its maximum)
+        try:
+            wf = np.asarray(W.create_window(Nl, name, **kwf))
+            if wf.shape != w.shape:
+                out.append("create_window %s has %d samples, %d with the parameters as Python floats %r" % (tag, w.size, wf.size, kwf))
+            elif single:
+                if not np.max(np.abs(w - wf)) <= FLOAT32_TOL * max(1.0, float(np.max(np.abs(wf)))):
+                    out.append("create_window %s differs by %.3e from the same request with double-precision parameters %r" % (
+                        tag, np.max(np.abs(w - wf)), kwf))
+            elif not np.array_equal(w, wf):
+                j = int(np.argmax(~(w == wf)))
+                out.append("create_window %s differs from the same request with the parameters as Python floats %r: sample %d is %r / %r, "
+                           "max difference %.3e" % (tag, kwf, j, float(w[j]), float(wf[j]), np.nanmax(np.abs(w - wf))))
+        except Exception as e:
+            out.append("create_window(N=%d, %r, **%r) raised %r" % (N, name, kwf, e))
     if w.shape != (N,) or np.iscomplexobj(w) or not np.all(np.isfinite(w)):
-        return ["%s does not return N finite real samples (shape %s, finite %s)" % (tag, w.shape, bool(np.all(np.isfinite(w))))]
+        return out + ["%s does not return N finite real samples (shape %s, finite %s)" % (tag, w.shape, bool(np.all(np.isfinite(w))))]
     periodic = (_gen_name(name) == "window_flattop" and kw.get("mode") == "periodic")
     scale = max(1.0, float(np.max(np.abs(w))))
     if periodic:
@@ -178,11 +289,13 @@ def oracle_win(p):
             out.append("%s is not periodically symmetric w[n] = w[N-n]" % tag)
     elif np.max(np.abs(w - w[::-1])) > 1e-9 * scale:
         out.append("%s is not symmetric: max |w[n]-w[N-1-n]| = %.3e" % (tag, np.max(np.abs(w - w[::-1]))))
-    if np.max(w) > 1 + 1e-8:
+    # (a single-precision shape parameter makes the coefficients single precision: blackman(alpha=float32(0.16)) peaks at 1 + 1.5e-8)
+    tol1 = FLOAT32_TOL if single else 1e-8
+    if np.max(w) > 1 + tol1:
         out.append("%s has maximum %.10f > 1" % (tag, np.max(w)))
-    cheb_far = (_gen_name(name) == "window_chebwin" and (N > 512 or kw.get("attenuation", 50) < 45))
+    cheb_far = (_gen_name(name) == "window_chebwin" and (N > 512 or kwf.get("attenuation", 50) < 45))
     if N >= 3 and N % 2 == 1 and not periodic and not cheb_far:
-        if abs(w[N // 2] - 1) > 1e-8:
+        if abs(w[N // 2] - 1) > tol1:
             out.append("%s centre sample is %.10f, not 1" % (tag, w[N // 2]))
     s = np.sum(w)
     if s != 0 and np.max(np.abs(w)) > 1e-150:
@@ -224,7 +337,7 @@ def oracle_win(p):
         out.append("%s(N, **%r) raised %r" % (gen.__name__, kw, ex))
     # closed forms of the classical wrappers
     g = _gen_name(name)
-    if N >= 2:
+    if N >= 2 and not single:     # (single-precision parameter: tied to the double-precision request above)
         n = np.arange(N)
         ref = None
         if g == "window_hamming":
@@ -237,16 +350,16 @@ def oracle_win(p):
             ref = np.ones(N)
         elif g == "window_chebwin":
             import scipy.signal.windows
-            ref = scipy.signal.windows.chebwin(N, kw.get("attenuation", 50))
+            ref = scipy.signal.windows.chebwin(N, kwf.get("attenuation", 50))
         elif g == "window_kaiser":
             from scipy.special import i0
-            b = kw.get("beta", 8.6)
+            b = kwf.get("beta", 8.6)
             ref = i0(b * np.sqrt(np.clip(1 - (2 * n / (N - 1) - 1) ** 2, 0, None))) / i0(b)
         if ref is not None and rel(w, ref) > 1e-9:
             out.append("%s differs from its closed-form definition: %.2e" % (tag, rel(w, ref)))
         # every sample on its own scale: a tail sample (kaiser beta=30 ends at 1.3e-12, blackman_harris at 6e-5) that is
         # wrong by any factor is invisible when the error is measured against the window maximum
-        r2 = _reference(g, N, kw)
+        r2 = _reference(g, N, kwf)
         if r2 is not None:
             ref2, floor = r2
             bad = np.abs(w - ref2) > 1e-9 * np.abs(ref2) + floor
@@ -357,15 +470,39 @@ ALL_KEYWORDS = {"beta": 3.0, "alpha": 1.0, "r": 0.5, "attenuation": 60.0, "mode"
 
 
 def _key(p):
-    return "%s|%s|%s%s%s" % (p.get("name"), p["N"], sorted((k, repr(v)) for k, v in p.get("kw", {}).items()),
-                             ("|" + p["ntype"]) if p.get("ntype") else "", "|twin" if p.get("twin") is not None else "")
+    return "%s|%s|%s%s%s%s" % (p.get("name"), p["N"], sorted((k, repr(v)) for k, v in p.get("kw", {}).items()),
+                               ("|" + p["ntype"]) if p.get("ntype") else "", "|twin" if p.get("twin") is not None else "",
+                               ("|" + ",".join("%s:%s" % kv for kv in sorted(p["ptype"].items()))) if p.get("ptype") else "")
+
+
+def _ptags(p):
+    """numeric type of every shape parameter of the request, as counted in the input distribution"""
+    out = []
+    pt = p.get("ptype") or {}
+    for k, v in p.get("kw", {}).items():
+        if isinstance(v, str):
+            continue
+        t = pt.get(k) or ("python-int" if isinstance(v, (int, np.integer)) and not isinstance(v, bool) else "python-float")
+        out.append("ptype:" + t)
+    return sorted(set(out))
+
+
+def _range_tags(p):
+    """requests in the upper part of a shape parameter's range"""
+    kw = p.get("kw", {})
+    g = p.get("name")
+    hi = ((g == "taylor" and kw.get("nbar", 4) >= 9) or (g == "kaiser" and kw.get("beta", 0) > 30)
+          or (g in ("gaussian", "poisson", "poisson_hanning", "cauchy") and kw.get("alpha", 0) > 6)
+          or (g == "chebwin" and kw.get("attenuation", 0) > 120))
+    return ["params:upper-range"] if hi else []
 
 
 KINDS = {
     "win": {"impl": impl_win, "model": model_win, "oracle": oracle_win, "rtol": 1e-9, "atol": 1e-13, "key": _key,
             "nontrivial": lambda p: p["N"] >= 3,
             "tags": lambda p: ["win:" + p["name"], "N:" + ("odd" if p["N"] % 2 else "even"), "params:" + ("default" if not p["kw"] else "given")] + (
-                ["N:numpy-integer"] if p.get("ntype") else []) + (["params:numeric-type-twin"] if p.get("twin") is not None else [])},
+                ["N:numpy-integer"] if p.get("ntype") else []) + (["params:numeric-type-twin"] if p.get("twin") is not None else []) + (
+                _ptags(p) + _range_tags(p) + (["N:>=65536"] if p["N"] >= 65536 else []))},
     "factory": {"oracle": oracle_factory, "key": _key, "tags": lambda p: ["factory"] + (["N:numpy-integer"] if p.get("ntype") else [])},
 }
 
@@ -553,3 +690,122 @@ def gen(rng, nrng, tier):
                 yield ("win", {"name": name, "N": N, "kw": {key: f(nrng)}})
         for N in (1023, 4096):
             yield ("win", {"name": "taylor", "N": N, "kw": {"nbar": int(nrng.integers(2, 8)), "sll": -float(nrng.uniform(22, 80))}})
+    # ================================================================================================================
+    # numeric TYPE of every shape parameter as a generated dimension, and the upper part of every parameter's range.
+    # The cases above draw the shape parameters from small customary ranges and (but for Taylor nbar) as Python floats.
+    # A shape parameter is a number: nbar=16 / 16.0 / numpy.int64(16), beta=8 / 8.0, sll=-60 / -60.0 ... are the same request
+    # and must give the identical array (oracle: against the all-Python-float request; numpy.float32: FLOAT32_TOL), through
+    # create_window, Window(...).data/.enbw and the generator function, and that array must be the closed form.
+    # (8-bit and unsigned numpy integers: PENDING-FINDING, see PTYPES.)
+    ptypes = ["python-int", "python-float", "int64", "int16", "float32", "int32", "float64"]
+    is_int = {"python-int", "int16", "int32", "int64"}
+
+    def typed(name, N, vals, types, ntype=None):
+        """one 'win' case: vals = {keyword: number}, types = {keyword: entry of ptypes}"""
+        kw, pt = {}, {}
+        for k, v in vals.items():
+            t = types[k]
+            if t in is_int:
+                v = int(round(v))
+            elif t == "float32":
+                v = float(np.float32(v))
+            else:
+                v = float(v)
+            kw[k] = v
+            if not t.startswith("python"):
+                pt[k] = t
+        q = {"name": name, "N": N, "kw": kw}
+        if pt:
+            q["ptype"] = pt
+        if ntype:
+            q["ntype"] = ntype
+        return ("win", q)
+
+    def taylor_ok(N, nbar, sll):
+        # DESIGN.md 0.6: for shallow side lobes and large nbar the Taylor DESIGN is not a taper any more (edge samples above the
+        # centre: (8, -20) by 1.3e-4, (20, -25) by 3e-2, (40, -22): maximum 2.3).  The cases stay where the definition itself
+        # (the independent closed form, which agrees with scipy.signal.windows.taylor(N, nbar, -sll, norm=True) to 1e-15) has
+        # maximum <= 1: everywhere in nbar <= 40, sll <= -30.
+        return N < 2 or float(np.max(_taylor_ref(N, nbar, sll))) <= 1.0 + 1e-12
+
+    # integer-valued values from the customary AND the upper part of each range, so that every numeric type applies
+    grid = {"kaiser": ("beta", [0, 1, 3, 8, 14, 20, 30, 40, 50, 64, 100]),
+            "blackman": ("alpha", [0]),
+            "gaussian": ("alpha", [1, 2, 3, 6, 10, 20, 40]),
+            "poisson": ("alpha", [0, 1, 2, 6, 10, 30, 100]),
+            "poisson_hanning": ("alpha", [0, 1, 2, 6, 10, 30, 100]),
+            "cauchy": ("alpha", [0, 1, 3, 6, 10, 30, 100]),
+            "tukey": ("r", [0, 1]),
+            "chebwin": ("attenuation", [45, 50, 60, 80, 100, 120, 150, 200, 250])}
+    frac = {"blackman": [0.16, 0.25, 0.5], "tukey": [0.25, 0.5, 0.75], "kaiser": [8.6, 33.3], "gaussian": [2.5, 7.5],
+            "poisson": [0.5, 12.5], "poisson_hanning": [1.5, 12.5], "cauchy": [2.5, 12.5], "chebwin": [52.5, 133.3]}
+    gn = sorted(grid)
+    rounds = 3 if tier == "quick" else 12
+    c = 0
+    for rnd in range(rounds):
+        for a, name in enumerate(gn):
+            key, vals = grid[name]
+            for b, t in enumerate(ptypes):
+                c += 1
+                if t in is_int or (rnd + a + b) % 2:
+                    v = vals[int(nrng.integers(0, len(vals)))]
+                else:
+                    v = frac[name][int(nrng.integers(0, len(frac[name])))]       # the float types also with a fractional value
+                N = [9, 64, 2, 33, 3, 16, 65, 1][(rnd + a + 3 * b) % 8] if rnd < 2 else int(nrng.integers(1, 200))
+                yield typed(name, N, {key: v}, {key: t}, ntype=("int32", "int64", "int16")[c % 3] if c % 5 == 0 else None)
+    # Taylor: every nbar of 2..40 as Python int, Python float and numpy.int64 (and one of the other types in turn); sll and N in turn
+    slls = [-30, -35, -40, -50, -60, -70, -80]
+    Ns = [2, 3, 9, 16, 33, 64, 65, 129]
+    c = 0
+    for nbar in range(2, 41):
+        for t in ("python-int", "python-float", "int64", ptypes[3 + nbar % 4]):
+            if nbar < 9 and t in ("python-float", "int64") and tier == "quick" and nbar % 2:
+                continue
+            c += 1
+            sll, N = slls[(c + nbar) % 7], Ns[(c * 3 + nbar) % 8]
+            if taylor_ok(N, nbar, sll):
+                yield typed("taylor", N, {"nbar": nbar, "sll": sll}, {"nbar": t, "sll": ptypes[(c + c // 7) % 7]},
+                            ntype=("int64", "int32")[c % 2] if c % 9 == 0 else None)
+    # ... and drawn at random over nbar 2..40 x sll -80..-30 x N, nbar of every type; one parameter alone (the other at its default)
+    for i in range(60 if tier == "quick" else 500):
+        N = int(nrng.integers(1, 300))
+        nbar = int(nrng.integers(2, 41))
+        sll = -float(nrng.uniform(30, 80))
+        tn, ts = ptypes[int(nrng.integers(0, 7))], ptypes[int(nrng.integers(0, 7))]
+        if i % 5 == 0:
+            sll = -30.0      # the default; with large nbar
+            if taylor_ok(N, nbar, sll):
+                yield typed("taylor", N, {"nbar": nbar}, {"nbar": tn})
+        elif taylor_ok(N, nbar, sll):
+            yield typed("taylor", N, {"nbar": nbar, "sll": sll}, {"nbar": tn, "sll": ts})
+    # --- the upper part of every parameter's range as floats, against the closed forms (per sample) and the model
+    upper = {"kaiser": ("beta", 30, 120), "gaussian": ("alpha", 6, 40), "poisson": ("alpha", 6, 100),
+             "poisson_hanning": ("alpha", 6, 100), "cauchy": ("alpha", 6, 100), "chebwin": ("attenuation", 120, 250)}
+    un = sorted(upper)
+    for i in range(90 if tier == "quick" else 900):
+        name = un[i % len(un)]
+        key, lo, hi = upper[name]
+        N = [7, 8, 33, 64, 129, 512][(i // len(un)) % 6] if i % 2 == 0 else int(nrng.integers(1, 300))
+        yield ("win", {"name": name, "N": N, "kw": {key: float(nrng.uniform(lo, hi))}})
+    # --- the length as a numpy integer where N*N no longer fits the type (int16: N >= 182; int32: N >= 46341), every name
+    for j, name in enumerate(names):
+        kw = {}
+        if name in PARAMS and j % 2:
+            kw = {PARAMS[name][0]: PARAMS[name][1](nrng)}
+        yield ("win", {"name": name, "N": [182, 255, 256, 257, 1000, 181][j % 6], "kw": kw, "ntype": "int16"})
+        if thorough or j % 5 == 0:
+            yield ("win", {"name": name, "N": [46341, 46342, 65536][j % 3], "kw": kw, "ntype": "int32"})
+    # --- long windows (N >= 2**16), thorough tier: default and given shape parameters, Python int and numpy integer N
+    if thorough:
+        longs = [("hamming", {}), ("hann", {}), ("blackman_harris", {}), ("bohman", {}), ("parzen", {}), ("riesz", {}), ("lanczos", {}),
+                 ("flattop", {}), ("kaiser", {"beta": 14.0}), ("kaiser", {"beta": 64}), ("gaussian", {"alpha": 4}), ("tukey", {"r": 0.25}),
+                 ("poisson", {"alpha": 3.0}), ("cauchy", {"alpha": 12}), ("chebwin", {"attenuation": 100}), ("chebwin", {"attenuation": 160.0}),
+                 ("taylor", {"nbar": 6, "sll": -45}), ("taylor", {"nbar": 12, "sll": -70.0})]
+        for j, (name, kw) in enumerate(longs):
+            for N in (65536, 65537, 131072):
+                if name == "taylor" and N != (65536, 65537)[j % 2]:
+                    continue
+                q = {"name": name, "N": N, "kw": dict(kw)}
+                if (j + N) % 3 == 0:
+                    q["ntype"] = ("int64", "int32")[j % 2]
+                yield ("win", q)
